@@ -26,24 +26,31 @@ INV_PROP = {
 }
 ELECTION_MSGS = {"MsgVote", "MsgVoteResp", "MsgPreVote", "MsgPreVoteResp", "MsgTimeoutNow", "MsgTransferLeader"}
 
-# spec mutants: guard removed -> (family cfg that refutes it, property of the guard)
+# spec mutants: guard removed -> (family cfg, overrides, property of the guard, time-out).  Each was
+# run to refutation on this box (design/detect-C0x.md); bounds are the ones under which TLC's BFS
+# reaches the shortest counterexample.  Not listed because removing them is NOT a safety violation of
+# the model (they are guards of the trace layer only: the code must still do what the design says):
+# votereset (vote kept across terms), prevoterecord (pre-vote grant recorded as vote) - both only make a
+# replica more reluctant; appliedcommit (Advance to commit) - skips entries, which no state invariant
+# of the model sees (the hand-out guard of ZRaftTrace does); truncbelowcommit - unreachable unless
+# another guard is broken.
+_Q = lambda f: QUICK_OVERRIDES[f]
 SPEC_MUTANTS = [
-    ("voteonce", "MC_ZRaft_Election_00.cfg", "C01"),
-    ("quorum", "MC_ZRaft_Election_00.cfg", "C01"),
-    ("uptodate", "MC_ZRaft_Election_00.cfg", "C02"),
-    ("prevoterecord", "MC_ZRaft_Election_10.cfg", "C01"),
-    ("prevotewins", "MC_ZRaft_Election_10.cfg", "C01"),
-    ("novoteload", "MC_ZRaft_Crash.cfg", "C01"),
-    ("sendbeforepersist", "MC_ZRaft_Crash.cfg", "C01"),
-    ("learnervote", "MC_ZRaft_Conf.cfg", "C01"),
-    ("learnerpromotable", "MC_ZRaft_Conf.cfg", "C01"),
-    ("appliedcommit", "MC_ZRaft_Crash.cfg", "C02"),
-    ("hbcommit", "MC_ZRaft_Log.cfg", "C02"),
-    ("oldtermcommit", "MC_ZRaft_Log.cfg", "C02"),
-    ("prevterm", "MC_ZRaft_Log.cfg", "C02"),
-    ("truncbelowcommit", "MC_ZRaft_Log.cfg", "C02"),
-    ("hupconf", "MC_ZRaft_ConfShrink.cfg", "C01"),
-    ("pendingconf", "MC_ZRaft_ConfShrink.cfg", "C01"),
+    ("voteonce", "MC_ZRaft_Election_00.cfg", "Q", "C01", 300),
+    ("quorum", "MC_ZRaft_Election_00.cfg", "Q", "C01", 300),
+    ("uptodate", "MC_ZRaft_Election_00.cfg", {"MaxDup": "0", "MaxProp": "1", "MaxMsgs": "4"}, "C02", 300),
+    ("prevotewins", "MC_ZRaft_Election_10.cfg", "Q", "C01", 300),
+    ("novoteload", "MC_ZRaft_Crash.cfg", {}, "C01", 600),
+    ("sendbeforepersist", "MC_ZRaft_Crash.cfg", "Q", "C03", 300),
+    ("learnerpromotable", "MC_ZRaft_Conf.cfg", "Q", "C01", 300),
+    ("learnervote", "MC_ZRaft_Conf.cfg", {}, "C01", 600),
+    ("hbcommit", "MC_ZRaft_Log.cfg", {"MaxElect": "2", "MaxProp": "1", "MaxLog": "2", "FHeartbeat": "TRUE", "FSnap": "FALSE"}, "C02", 500),
+    ("prevterm", "MC_ZRaft_Log.cfg", {"MaxElect": "3", "MaxTerm": "4", "MaxLog": "2", "MaxProp": "0", "MaxMsgs": "3", "MaxDup": "0",
+                                      "MaxAppEnts": "8", "FResend": "FALSE", "FHeartbeat": "FALSE", "FSnap": "FALSE"}, "C02", 900),
+    ("oldtermcommit", "MC_ZRaft_Log.cfg", {"MaxElect": "4", "MaxTerm": "5", "MaxLog": "2", "MaxProp": "0", "MaxMsgs": "3", "MaxDup": "0",
+                                           "MaxAppEnts": "1", "FResend": "TRUE", "FHeartbeat": "FALSE", "FSnap": "FALSE"}, "C02", 1200),
+    ("hupconf", "MC_ZRaft_ConfShrink.cfg", {}, "C01", 600),
+    ("pendingconf", "MC_ZRaft_ConfShrink.cfg", {}, "C01", 600),
 ]
 
 
@@ -85,17 +92,18 @@ def run_families(ctx, fams, workers, timeout, par=3, suffix=""):
     return out
 
 
-def spec_mutants(ctx, props, workers=4, timeout=240):
+def spec_mutants(ctx, props, workers=6, timeout=None):
     """Each mutant removes one guard; TLC must refute an invariant (the invariants bite)."""
-    todo = [m for m in SPEC_MUTANTS if m[2] in props]
+    todo = [m for m in SPEC_MUTANTS if m[3] in props]
 
     def one(m):
-        name, cfg, prop = m
-        res = family(ctx, cfg, workers=workers, timeout=timeout, overrides={"Mut": '"%s"' % name},
-                     tag="mut-" + name)
+        name, cfg, ov, prop, to = m
+        ov = dict(QUICK_OVERRIDES[cfg] if ov == "Q" else ov)
+        ov["Mut"] = '"%s"' % name
+        res = family(ctx, cfg, workers=workers, timeout=timeout or to, overrides=ov, tag="mut-" + name)
         return dict(mutant=name, cfg=cfg, guard_of=prop, refuted_by=res.violated, timed_out=res.timed_out,
                     states=res.distinct, wall_s=round(res.wall, 1))
-    out = V.parallel(one, todo, n=3)
+    out = V.parallel(one, todo, n=2)
     for r in out:
         ctx.log("spec mutant %-18s %-26s -> %s" % (r["mutant"], r["cfg"], r["refuted_by"] or ("NOT refuted" + (" (timeout)" if r["timed_out"] else ""))))
     return out
@@ -537,7 +545,7 @@ def run_check(ctx, prop):
         pass
     extra = {}
     if not quick:
-        extra["spec_mutants"] = spec_mutants(ctx, {prop}, workers=4, timeout=300)
+        extra["spec_mutants"] = spec_mutants(ctx, {prop})
         extra["binding_selftest"] = binding_selftest(ctx, zr, prop)
     if stats["traces"] == 0:
         raise V.Inconclusive("no trace could be validated")
